@@ -96,6 +96,9 @@ func BuildUnit(P *Program, key string, profile string, prop string) (*Unit, erro
 	}
 	for i, fv := range fn.FreeVars {
 		pre.vars[fv.Name()] = TV{free[i], fv.Type()}
+		if o, renamed := aliasesOf(fn).rev[fv.Name()]; renamed {
+			pre.vars[o] = TV{free[i], fv.Type()}
+		}
 	}
 	for _, lv := range fc.Logicals {
 		t, err := pre.resolveType(lv.Type)
